@@ -16,6 +16,7 @@ LEVEL_TEXT = ("Coq theorems that the NaN-skipping aggregate sees exactly the val
 LEVEL_NOTE = ("kernels regenerated from source (translator trusted, validated by correspondence); reductions are the hand model of xarray's "
               "skipna mean; FSS is the documented exception (NaN cell = non-event) and is covered under C16")
 TECHNIQUE = "Coq proof (NaN-iff per regenerated kernel, masked=deleted for the aggregate) + masked-vs-deleted correspondence on the implementation"
+TIE_IS_SPEC = True
 SITES = ["S1", "S2", "S3", "S4a", "S4b", "S4c"]
 RULE = ("1-D and 2-D cases on the dyadic grid with NaN injected independently into forecast, observation and weights (p=0.25 each slot); "
         "masked run vs run with the invalid cases deleted from all inputs; pointwise NaN mask vs 'some input NaN'. distinct by hash of "
